@@ -43,6 +43,28 @@ const ATOMS: [&str; 24] = [
 ];
 
 fn gen_text(p: &mut Planner) -> String {
+    if p.chance(1, 14) {
+        // a text whose signed form sits on / next to the 512-byte buffer of the streaming normalizer
+        let target = *p.pick(&[510usize, 511, 512, 513, 1023, 1024, 1025, 1536]);
+        let ending = *p.pick(&["\r", "x", " ", "\r\n", "\n", "-", "\t\r"]);
+        let mut t = String::new();
+        let multi = p.chance(1, 2);
+        while t.len() + ending.len() < target {
+            // (every LF becomes CR LF in the signed form: count two octets for it)
+            if multi && t.len() % 64 == 62 && t.len() + ending.len() + 2 < target {
+                t.push('\n');
+                t.push('a'); // keeps the arithmetic simple: LF adds one octet in the signed form, so drop one filler below
+                continue;
+            }
+            t.push('a');
+        }
+        let lfs = t.matches('\n').count();
+        for _ in 0..lfs {
+            t.pop();
+        }
+        t.push_str(ending);
+        return t;
+    }
     let lines = p.range(0, 8);
     let mut t = String::new();
     for i in 0..lines {
